@@ -268,6 +268,7 @@ def outcome_oracle(obs, x):
     counted, mine = counted_faults(obs, x)
     # mechanism field: a BaseException (not an Exception) was raised into request-stage work of this transfer
     mech['base_exception_fault'] = any(r['kind'] == 'base' for r in mine)
+    mech['executor'] = obs.spec.get('executor', 'threaded')
     cancelled = cancel_issued_before_done(obs, x)
     if x.outcome is None:
         return out
